@@ -33,7 +33,11 @@ defjvp(
     anp._array_from_scalar_or_array,
     None,
     None,
-    lambda g, ans, args, kwargs, _: anp._array_from_scalar_or_array(args, kwargs, g),
+    lambda g, ans, args, kwargs, _: (
+        anp._array_from_scalar_or_array(args, kwargs, g)
+        if onp.issubdtype(anp.metadata(ans)[2], onp.inexact)
+        else vspace(ans).zeros()  # cast to an integer / boolean dtype: piecewise constant
+    ),
 )
 
 # ----- Functions that are constant w.r.t. continuous inputs -----
